@@ -125,16 +125,20 @@ class Mixin(Node):
             bool (passes guards)
         """
         if self.guards:
-            cor = True if ',' in self.guards else False
+            # Comma separated list of `and` chains: one chain has to hold,
+            # and a chain holds when all of its conditions do.
+            chain = True
             for g in self.guards:
                 if isinstance(g, list):
                     res = (g[0].parse(scope)
                            if len(g) == 1 else Expression(g).parse(scope))
-                    if cor:
-                        if res:
-                            return True
-                    elif not res:
-                        return False
+                    if not res:
+                        chain = False
+                elif g == ',':
+                    if chain:
+                        return True
+                    chain = True
+            return chain
         return True
 
     def call(self, scope, args=[]):
